@@ -105,12 +105,11 @@ Qed.
 Goal True. idtac "ASSUMPTIONS scalar_operands_take_tensor_dtype". Abort.
 Print Assumptions scalar_operands_take_tensor_dtype.
 
-(* what is still wrapped with the default float32: operands of non-floating tensors, non-scalar Python data (lists), and
-   the operand of @ / reflected @ (`Tensor(tensor)`; the call raises anyway: matmul needs two dimensions) *)
+(* what is still wrapped with the default float32 for floating tensors: non-scalar Python data (lists) and the operand
+   of @ / reflected @ (`Tensor(tensor)`; the call raises anyway: matmul needs two dimensions).  Operands of
+   NON-floating tensors are float32-wrapped too (int64 tensor * 2 is float64): outside this property, see the notes. *)
 Example still_wrapped_in_float32 :
-  deval0 gen_cfg [Np DInt KArray; PyFloat] scalar_wrap = [Np F32 KArray] /\
   deval0 gen_cfg [Np F64 KArray; ShapeV] scalar_wrap = [Np F32 KArray] /\
-  deval0 gen_cfg [Np DInt KArray; PyInt] m___mul__ = [Np F64 KArray] /\
   deval0 gen_cfg [Np F16 KArray; PyFloat] m___matmul__ = [Np F32 KArray] /\
   Nat.leb 30 (List.length scalar_operand_rows) = true /\
   forallb (fun r => forallb (fun d => negb (is_nil (op_result gen_cfg d d r))) [F16; F32; F64]) scalar_operand_rows = true.
